@@ -411,7 +411,8 @@ class Case:
         self.boxes: dict[bytes, list[Msg]] = {INBOX: [], OTHER: []}
         self.perm: dict[bytes, frozenset[bytes] | None] = {INBOX: None,
                                                            OTHER: None}
-        self.gone: dict[bytes, list[int]] = {INBOX: [], OTHER: []}
+        self.gone: dict[bytes, dict[int, bytes | None]] = {INBOX: {},
+                                                           OTHER: {}}
         self.sel: bytes | None = None
         self.ro = False
         self.view: list[Any] = []
@@ -585,11 +586,12 @@ class Case:
 
     def _shape_check(self, rows: list[Row], who: str,
                      box: bytes | None) -> None:
-        back = [row for row in rows if row.uid in self.gone.get(box or b'',
-                                                                ())]
+        left = self.gone.get(box or b'', {})
+        back = [row for row in rows
+                if row.uid in left and left[row.uid] == row.cid]
         if back:
-            # latitude 3 does not cover this: a message keeps its UID only
-            # while it stays, and a UID the mailbox gave up never returns
+            # not a question of UID assignment (latitude 3): the very message
+            # that left the mailbox is listed again under its old UID
             self.fail('expunged-uid-resurrected:%s' % self.cur.get(
                 'verb', '?'),
                 '%s lists %r again: UIDs %r had left the mailbox (expunged '
@@ -1106,7 +1108,7 @@ class Case:
             # nothing that should have changed did, nothing else changed,
             # and no response says which messages the server addressed
             p = min(noeffect)
-            self.report(self.blame(op, noeffect, 'store-no-effect:%s' % mode),
+            self.report('store-no-effect:%s' % mode,
                         '%sFLAGS %r on %r (positions %r): flags stayed %r' % (
                             op['mode'], sorted(op['flags']), op['set'],
                             sorted(noeffect), sorted(msgs[p - 1].flags)))
@@ -1306,7 +1308,7 @@ class Case:
                 detail)
         self.boxes[box] = [m for m in msgs
                            if not any(m is x for x in dele)]
-        self.gone[box] += [m.uid for m in dele]     # type: ignore[misc]
+        self.gone[box].update((m.uid, m.cid) for m in dele)  # type: ignore
         self.check_view(op, info)
         self.same_list(box, rows, name)
         self.flags_same(box, rows, name, 'expunge-changed-flags')
@@ -1342,7 +1344,7 @@ class Case:
                       'close-removed-undeleted',
                       'removed by CLOSE: %r' % extra)
         self.boxes[box] = [m for m in msgs if not any(m is x for x in dele)]
-        self.gone[box] += [m.uid for m in dele]     # type: ignore[misc]
+        self.gone[box].update((m.uid, m.cid) for m in dele)  # type: ignore
         self.same_list(box, rows, 'CLOSE')
         self.flags_same(box, rows, 'CLOSE', 'close-changed-flags')
         self.adopt(box, rows)
@@ -1545,7 +1547,8 @@ class Case:
                           op['set'], len(msgs), apos, rows,
                           drows[len(old):]))
         self.boxes[box] = [m for m in msgs if id(m) not in is_src]
-        self.gone[box] += [m.uid for m in sources]  # type: ignore[misc]
+        self.gone[box].update((m.uid, m.cid)        # type: ignore
+                              for m in sources)
         self.check_view(op, info)
         self.same_list(box, rows, op['name'])
         self.flags_same(box, rows, op['name'], 'move-changed-source')
@@ -1716,7 +1719,7 @@ class Case:
         rng = self.rng
         assert self.sel is not None
         uids = [m.uid or 1 for m in self.boxes[self.sel]]
-        gone = self.gone[self.sel]
+        gone = list(self.gone[self.sel])
         top = max(uids + gone + [0])
         if not uids:
             pool = gone[-3:] + [top + 1, 1]
@@ -2029,6 +2032,16 @@ class C10(Check):
             if rng.random() < 0.25:
                 spec['tz'] = rng.choice(TZS)
             yield spec
+
+    def extra_evidence(self, agg: dict[str, Any]) -> dict[str, Any]:
+        c = agg['counters']
+        return {
+            'latitude_uses': {k: v for k, v in c.items()
+                              if k.startswith('lat_')},
+            'commands_compared': {k[4:]: v for k, v in c.items()
+                                  if k.startswith('cmd_')},
+            'set_shapes': {k[6:]: v for k, v in c.items()
+                           if k.startswith('shape_')}}
 
     def run_case(self, spec: dict[str, Any]) -> dict[str, Any]:
         random.seed(spec.get('seed', 0))
